@@ -3,12 +3,13 @@ import astq
 from rules import argon, blake, spec
 
 LEVEL = 'other'
-TECHNIQUE = 'sibling comparison of the three fill_segment implementations on normalised resolved ASTs, structural comparison of index_alpha / H0 / H\' with RFC 9106, parameter-table agreement with the specification, flag-to-implementation dispatch rules'
+TECHNIQUE = 'sibling comparison of the three fill_segment implementations on normalised resolved ASTs, structural comparison of index_alpha / H0 / H\' with RFC 9106, parameter-table agreement with the specification, flag-to-implementation dispatch rules; fixed-width evaluation of index_alpha; truth tables of path conditions'
 CLAIM = ('Decides statically: the Argon2 instance has exactly the parameters of spec Table 7.1.1; the implementation is chosen only by flag; the reference, SSSE3 and AVX2 segment fillers agree statement for statement on the '
          'block-addressing skeleton (offsets, pseudo-random source, reference lane/index, current block, overwrite-or-XOR decision - so a re-initialised cache carries no trace of the old one); index_alpha, the H0 absorption '
-         'order and H\' have the RFC 9106 structure. Byte equality of the BlaMka compression in its three SIMD flavours is numeric and not claimed.')
+         'order and H\' have the RFC 9106 structure. Byte equality of the BlaMka compression in its three SIMD flavours is numeric and not claimed.'
+         ' index_alpha is decided by fixed-width evaluation against the RFC 9106 mapping for the configured geometry and two reduced instances with non-power-of-two lane length (A2-INDEX); the overwrite-or-XOR decision as a truth table over (version, pass) (A2-XOR); Blake2b streaming as in C11 (B2-STREAM, B2-FINAL).')
 LEVEL_NOTE = 'Trusted: clang AST of the build flags (SSSE3/AVX2 units are parsed with their -m flags); the BlaMka round functions (fill_block) of the three implementations; Blake2b (C11).'
-EXPLANATION = 'SPEC-ARGON, A2-DISPATCH, A2-SKELETON, A2-XOR, A2-INDEX, A2-H0, A2-HPRIME.'
+EXPLANATION = 'SPEC-ARGON, A2-DISPATCH, A2-SKELETON, A2-XOR, A2-INDEX, A2-H0, A2-HPRIME. A2-INDEX (evaluated), A2-XOR (truth table), B2-STREAM, B2-FINAL.'
 
 
 def run(ctx, R):
